@@ -11,12 +11,22 @@
      {"ev":"Call","kind":"att"|"pro"|"sync","ep":e,"idxs":[ids],"ok":b,"resp":[{v,slot|ep,tag}]}      -> CallDuties
      {"ev":"Delay","slot":n,"type":ty,"dl":ms}            delayFunc called with that deadline           -> Delay
      {"ev":"Trigger","slot":n,"type":ty,"defs":[{v,dv,slot,tag,k}]}   duty subscriber called             -> Fire
+     {"ev":"Head","slot":n}                               HandleHeadEvent(n) called by the environment   (no effect on the
+     {"ev":"FetchOnly","slot":n,"defs":[...]}             the fetcher's FetchOnly called                  model: see below)
    Tick and LoopStep are silent.  The deadline and the definition set are taken from the event: NotEarly, OnlyAssigned, AtMostOnce
    and Complete judge them.  The answers of the beacon client are taken from the event as well, but must be what the
    scripted node would answer (RespOK: a caching layer may drop unsolicited entries) -- a self-check of the driver.
    A Delay / Trigger event that no spawned goroutine explains is accepted as a stray trigger and then judged by the
    invariants (so the verdict names the property) and finally by NoStray; a goroutine of the spec that never shows up
-   before the next clock move is reported as Complete / SlotSubCalled (TLost). *)
+   before the next clock move is reported as Complete / SlotSubCalled (TLost).
+   Feature flags (cfg.feat = "off" | "on" | "delay" | "both"; cfg.clock = "virt"): the scheduler runs on the bubble's
+   virtual clock (its attester wait mixes time.Until with the scheduler clock, so a fake clock cannot drive it); the
+   executor logs an Advance event in front of the first event of every new instant, i.e. `now` is the exact virtual
+   time of every event.  The attester duty's goroutine is in stage "wait": its Trigger event is accepted whenever it
+   comes and NotEarly judges the instant (field `at` of the event must be `now`: self-check of the driver); a clock
+   move past its deadline without the Trigger is Complete (TLost).  Head / FetchOnly events are consumed without
+   any demand: whether and when the early fetch happens is not C15's business; what C15 demands is that they
+   change nothing about the duty triggers (with the flags on or off). *)
 EXTENDS Scheduler, TraceCommon
 VARIABLE stray
 tvars == <<vars, stray, tr, l>>
@@ -27,7 +37,9 @@ TruthOf(c) == [S |-> c.S,
                vals |-> {[id |-> x.id, known |-> x.known, act |-> x.act, exit |-> x.exit, unsol |-> x.unsol] : x \in SeqToSet(c.vals)},
                att |-> {NormA(x) : x \in SeqToSet(c.att)}, pro |-> {NormA(x) : x \in SeqToSet(c.pro)},
                sync |-> {NormS(x) : x \in SeqToSet(c.sync)}]
+FeatOf(c) == IF ~Has(c, "feat") THEN "off" ELSE IF c.feat = "both" THEN "delay" ELSE c.feat
 TraceInit == /\ TrInit /\ truth = TruthOf(Cfg0) /\ now = Cfg0.start /\ Init0 /\ stray = FALSE
+             /\ feat = FeatOf(Cfg0) /\ feat \in {"off", "on", "delay"}
 TReset == IsEvent("Reset") /\ UNCHANGED <<vars, stray>>
 \* The hand-over of a slot to the run loop is not logged (the slot subscriber may run before schedSlotFunc): it is a
 \* silent step whose slot is the one of the next Sched event, taken only when that event precedes the next clock move.
@@ -54,8 +66,8 @@ TDelay == /\ IsEvent("Delay") /\ UNCHANGED stray
           /\ \E g \in gor : g.kind = "duty" /\ g.slot = Ev.slot /\ g.type = Ev.type /\ Delay(g, Ev.dl)
 DefOf(x) == IF x.k = "sync" THEN [v |-> x.dv, tag |-> x.tag] ELSE [v |-> x.dv, slot |-> x.slot, tag |-> x.tag]
 DefsOf(e) == LET D == SeqToSet(e.defs) IN [v \in {x.v : x \in D} |-> DefOf(CHOOSE x \in D : x.v = v)]
-Match(g) == g.kind = "duty" /\ g.stage = "fire" /\ g.slot = Ev.slot /\ g.type = Ev.type
-TTrigger == /\ IsEvent("Trigger")
+Match(g) == g.kind = "duty" /\ g.stage \in {"fire", "wait"} /\ g.slot = Ev.slot /\ g.type = Ev.type
+TTrigger == /\ IsEvent("Trigger") /\ (Has(Ev, "at") => Ev.at = now)
             /\ \E g \in gor : Match(g) /\ Fire(g, DefsOf(Ev)) /\ stray' = (stray \/ g.id < 0)
 \* a Delay event that no spawned goroutine explains: a phantom goroutine (negative id) carries the deadline to the
 \* Trigger event that follows, where the invariants judge the definitions
@@ -64,21 +76,28 @@ TStrayDelay == /\ IsEvent("Delay") /\ pc # "loop" /\ UNCHANGED stray
                /\ gor' = gor \cup {[id |-> 0 - l, kind |-> "duty", slot |-> Ev.slot, type |-> Ev.type, defs |-> Empty,
                                      stage |-> "fire", dl |-> Ev.dl]}
                /\ UNCHANGED <<truth, now, tnext, pc, slot, i, res, resolvedEpoch, duties, byEpoch, gid, triggered, sched,
-                              resolvedAt, elig, eligAll>>
+                              resolvedAt, elig, eligAll, fvars>>
 \* the clock moves (or the run ends) although a spawned goroutine never showed up in the trace: the duty was not
 \* triggered / the slot subscriber was not called
-TLost == /\ l <= TLen /\ Ev.ev \in {"Advance", "End"} /\ pc = "idle" /\ gor # {}
-         /\ IF \E g \in gor : g.kind = "duty" THEN InvFail("Complete") ELSE InvFail("SlotSubCalled")
+TLost == /\ l <= TLen /\ Ev.ev \in {"Advance", "End"} /\ pc = "idle"
+         /\ LET lost == IF Ev.ev = "Advance" THEN {g \in gor : g.stage = "wait" => Ev.to > g.dl} ELSE ReadyGor IN
+            /\ lost # {}
+            /\ IF \E g \in lost : g.kind = "duty" THEN InvFail("Complete") ELSE InvFail("SlotSubCalled")
          /\ UNCHANGED tvars
 TStray == /\ IsEvent("Trigger") /\ pc # "loop" /\ ~\E g \in gor : g.kind = "duty" /\ g.slot = Ev.slot /\ g.type = Ev.type
-          /\ triggered' = Append(triggered, [slot |-> Ev.slot, type |-> Ev.type, defs |-> DefsOf(Ev),
-                                             dl |-> IF HasOffset(Ev.type) THEN Start(Ev.slot) + Offset(Ev.type) ELSE None])
+          /\ LET w == FeatOn /\ Ev.type = "att" IN
+             triggered' = Append(triggered, [slot |-> Ev.slot, type |-> Ev.type, defs |-> DefsOf(Ev),
+                                             dl |-> IF HasOffset(Ev.type) /\ ~w THEN Start(Ev.slot) + Offset(Ev.type) ELSE None,
+                                             at |-> IF w THEN now ELSE None, mode |-> IF w THEN "wait" ELSE "delay"])
           /\ stray' = TRUE
-          /\ UNCHANGED <<truth, now, tnext, pc, slot, i, res, resolvedEpoch, duties, byEpoch, gor, gid, sched, resolvedAt, elig, eligAll>>
+          /\ UNCHANGED <<truth, now, tnext, pc, slot, i, res, resolvedEpoch, duties, byEpoch, gor, gid, sched, resolvedAt, elig, eligAll, fvars>>
+\* the environment's head event and the early fetch it may start: no demand, no effect on the duty triggers
+THead == IsEvent("Head") /\ UNCHANGED <<vars, stray>>
+TFetchOnly == IsEvent("FetchOnly") /\ UNCHANGED <<vars, stray>>
 TAdvance == IsEvent("Advance") /\ Advance(Ev.to) /\ UNCHANGED stray
 TEnd == IsEvent("End") /\ Quiescent /\ UNCHANGED <<vars, stray>>
 TLoop == LoopStep /\ Silent /\ UNCHANGED stray
-TraceNext == TReset \/ TTick \/ TSched \/ TSlotSub \/ TCallVals \/ TCallDuties \/ TDelay \/ TStrayDelay \/ TTrigger \/ TStray \/ TLost \/ TAdvance \/ TEnd \/ TLoop
+TraceNext == TReset \/ TTick \/ TSched \/ TSlotSub \/ TCallVals \/ TCallDuties \/ TDelay \/ TStrayDelay \/ TTrigger \/ TStray \/ TLost \/ TAdvance \/ TEnd \/ TLoop \/ THead \/ TFetchOnly
 TraceSpec == TraceInit /\ [][TraceNext]_tvars
 Mark == /\ CheckInv("TruthSane", TruthSane)
         /\ CheckInv("AtMostOnce", AtMostOnce) /\ CheckInv("OnlyAssigned", OnlyAssigned)
